@@ -14,70 +14,160 @@ the route raises.
 -/
 namespace Pya.C13
 
+/-! ## 0. name resolution
+
+Evaluators take a `Lookup` (what `ctx.get_name` answers); the three pieces of code that look a name
+of an annotation up are `visLookup` (`NameCheckVisitor.resolve_name`: module scope, then builtins
+scope), `globalsLookup` (`Context.get_name_from_globals`, used for the string annotations of a
+function object) and `defaultLookup` (`_DefaultContext.get_name` with `globals=`). -/
+
+/-- **Every route resolves every name identically; module globals shadow builtins (full).** For
+every environment and every name: the visitor's scope walk, `get_name_from_globals` and
+`_DefaultContext.get_name` give the same answer — the module's binding when there is one, else the
+builtin, else undefined. -/
+theorem names_resolve_alike (env : NameEnv) (n : Nat) :
+    visLookup env n = globalsLookup env n ∧ defaultLookup env n = globalsLookup env n ∧
+    (env.late.has n = true → globalsLookup env n = env.late.get n) ∧
+    (env.late.has n = false → globalsLookup env n = env.builtins.get n) := by
+  refine ⟨congrFun (lookups_eq env).1 n, rfl, fun h => by simp [globalsLookup, h], fun h => ?_⟩
+  by_cases hb : env.builtins.has n = true
+  · simp [globalsLookup, h, hb]
+  · have : env.builtins.get n = none := by
+      simp only [Bindings.has, List.any_eq_true, not_exists, not_and, Bool.not_eq_true] at hb
+      simp only [Bindings.get, Option.map_eq_none_iff, List.find?_eq_none]
+      intro x hx; simpa using hb x hx
+    simp [globalsLookup, h, hb, this]
+
+/-- **A string annotation means the same wherever its names are looked up (full).** For every
+expression (names shadowing builtins, builtin-only, module-only, undefined, defined after the def):
+the quoted annotation in checked source (visitor scopes), the string annotation of the function
+object (`f.__globals__`, e.g. every annotation under `from __future__ import annotations`) and
+`type_from_ast` / `type_from_runtime` with `globals=` yield the same value, errors and flag. -/
+theorem string_names_agree (env : NameEnv) (e : AnnExpr) (au : Bool) :
+    visEval env au (.str e) = astEval (globalsLookup env) au e ∧
+    rtEval (globalsLookup env) au (tnorm (.str e)) = astEval (globalsLookup env) au e ∧
+    astEval (defaultLookup env) au e = astEval (globalsLookup env) au e := by
+  refine ⟨?_, by simp [tnorm, rtEval], by rw [(lookups_eq env).2]⟩
+  simp only [visEval]; rw [(lookups_eq env).1]
+
+/-- The full statement about the names an *unquoted* annotation evaluates (not asserted: false when a
+name is rebound after the `def`): the object CPython stored in `__annotations__` when the `def` ran
+is the object the visitor evaluates the expression to. -/
+def DefTimeNamesAgree (env : NameEnv) (e : AnnExpr) : Prop :=
+  resolveV (pyLookup env) e = resolveV (visLookup env) e
+
+/-- **Names of an unquoted annotation (partial).** If no name the expression looks up is (re)bound
+after the `def` statement (`stableNames`), evaluating it at def time (module globals so far, then
+builtins) and evaluating it in the visitor (final module scope, then builtins) give the same
+object. -/
+theorem def_time_names_partial (env : NameEnv) (e : AnnExpr) (h : stableNames env e = true) :
+    DefTimeNamesAgree env e := by
+  apply resolveV_congr
+  intro n hn
+  simp only [stableNames, List.all_eq_true, decide_eq_true_eq] at h
+  exact h n hn
+
+/-- name 0 = `complex`, bound by the module to class `B` (24) before the def and a builtin (class 4);
+name 1 = `int`, builtin only; name 2 = `MyInt`, module only; name 3 undefined; name 4 = `Later`, bound
+by the module after the def; name 5 bound to `A` before the def and rebound to `B` after it -/
+def exEnv : NameEnv :=
+  { early := [(0, .cls 24), (2, .cls C.int), (5, .cls 23)],
+    late := [(0, .cls 24), (2, .cls C.int), (4, .cls 26), (5, .cls 24)],
+    builtins := [(0, .cls C.complex), (1, .cls C.int)] }
+
+/-- what the property excludes: builtins consulted before the module globals -/
+def builtinsFirstLookup (env : NameEnv) : Lookup := fun n =>
+  if env.builtins.has n then env.builtins.get n else env.late.get n
+
+/-- non-vacuity: in `exEnv` the five kinds of names resolve as they should in all three lookups, and
+the shadowing name discriminates a builtins-first lookup -/
+example : (List.range 5).map (visLookup exEnv) =
+    [some (.cls 24), some (.cls C.int), some (.cls C.int), none, some (.cls 26)] ∧
+    (List.range 5).map (globalsLookup exEnv) = (List.range 5).map (visLookup exEnv) ∧
+    builtinsFirstLookup exEnv 0 = some (.cls C.complex) := by decide
+
+/-- **Witness (`stableNames` is needed).** `K = A; def f(x: K): ...; K = B`: the function object
+carries `A`, the visitor evaluates the annotation to `B`. -/
+theorem witness_reboundName : ¬ DefTimeNamesAgree exEnv (.name 5) := by
+  intro h
+  have := congrArg (fun e => match e with | AnnExpr.cls c => c | _ => 0) h
+  revert this
+  decide
+example : stableNames exEnv (.gen true C.list [.name 0, .name 1, .name 2]) = true ∧
+    stableNames exEnv (.name 5) = false := by decide
+
 /-! ## 1. the string route -/
 
 /-- **Quoting an annotation switches to the AST route, wherever the string is met (full).** For every
-expression `e` and either `allow_unpack`: the AST route on the string `'e'` is the AST route on `e`;
-the runtime route handed the string `'e'` (`type_from_runtime("e")`, a `str`/`ForwardRef` argument
-inside a generic) is the AST route on `e`; a quoted annotation in checked source is the AST route
-on `e`. -/
-theorem string_route (e : AnnExpr) (au : Bool) :
-    astEval au (.str e) = astEval au e ∧ rtEval au (tnorm (.str e)) = astEval au e ∧
-    visEval au (.str e) = astEval au e := by
+lookup, expression `e` and either `allow_unpack`: the AST route on the string `'e'` is the AST route
+on `e`; the runtime route handed the string `'e'` (`type_from_runtime("e")`, a `str`/`ForwardRef`
+argument inside a generic) is the AST route on `e`; a quoted annotation in checked source is the AST
+route on `e` with the visitor's lookup. -/
+theorem string_route (look : Lookup) (env : NameEnv) (e : AnnExpr) (au : Bool) :
+    astEval look au (.str e) = astEval look au e ∧ rtEval look au (tnorm (.str e)) = astEval look au e ∧
+    visEval env au (.str e) = astEval (visLookup env) au e := by
   simp [astEval, rtEval, tnorm, visEval]
 
 /-! ## 2. annotations in checked source -/
 
-/-- The full statement for the in-source route (not asserted: false on `starUnpack`). -/
-def VisitorAgrees (e : AnnExpr) : Prop := ∀ au, visEval au e = rtEval au (tnorm e)
+/-- The full statement for the in-source route (not asserted: false on `starUnpack`): the visitor's
+reading is the runtime route on the object the expression evaluates to (names replaced by the
+objects the visitor binds them to, then whatever `typing` does). -/
+def VisitorAgrees (env : NameEnv) (e : AnnExpr) : Prop :=
+  ∀ au, visEval env au e = rtEval (visLookup env) au (tnorm (resolveV (visLookup env) e))
 
 /-- **An unquoted annotation in checked source means what the runtime object means (partial:
-outside `starUnpack`).** For every expression without a PEP 646 starred member the visitor's
-reading equals the runtime route on the object `typing` builds — for every expression of the
-syntax, supported or not, with the same errors. -/
-theorem visitor_route_partial (e : AnnExpr) (hD : D13_starUnpack e = false) : VisitorAgrees e :=
-  fun au => vis_eq_rt e au (hasStar_starU e hD)
+outside `starUnpack`).** For every expression without a PEP 646 starred member — supported or not,
+with any names — with the same errors. -/
+theorem visitor_route_partial (env : NameEnv) (e : AnnExpr) (hD : D13_starUnpack e = false) :
+    VisitorAgrees env e :=
+  fun au => vis_eq_rt env e au (hasStar_starU e hD)
 
 /-! ## 3. the AST / string route against the runtime route -/
 
-/-- The full statement (not asserted: false on `starUnpack`, `typingDedup`): the AST
-route on `e` computes what the runtime route computes on the object `typing` builds for `e` with
+/-- The full statement (not asserted: false on `starUnpack`, `typingDedup`): for a lookup `look`, the
+AST route on `e` computes what the runtime route computes on the object `typing` builds for `e` with
 every `Optional[X]` written `Union[None, X]` — i.e. the two routes agree exactly, except that the
 AST route unites `None` first where `typing` puts it last (member order only). -/
-def RoutesAgree (e : AnnExpr) : Prop := ∀ au, astEval au e = rtEval au (tnorm (swapOpt e))
+def RoutesAgree (look : Lookup) (e : AnnExpr) : Prop :=
+  ∀ au, astEval look au e = rtEval look au (tnorm (swapOpt e))
 
-/-- **AST route = runtime route (partial).** For every supported expression (any depth, any
-nesting of classes, None, Any, NewTypes, bare aliases, old/new generics, tuple forms with
-`Unpack[...]`, Literal, `type[]`, Annotated, Final / ClassVar, Optional / Union / `|`,
+/-- **AST route = runtime route (partial).** For every lookup and every supported expression (any
+depth, any nesting of names, classes, None, Any, NewTypes, bare aliases, old/new generics, tuple
+forms with `Unpack[...]`, Literal, `type[]`, Annotated, Final / ClassVar, Optional / Union / `|`,
 forward-reference strings) outside the class `starUnpack` and the representation class
 `typingDedup`, the two routes yield the same value, the same number of errors and the same `Unpack`
 flag. -/
-theorem routes_agree_partial (e : AnnExpr) (hS : Supported e = true)
+theorem routes_agree_partial (look : Lookup) (e : AnnExpr) (hS : Supported e = true)
     (h1 : D13_starUnpack e = false)
-    (h3 : R13_typingDedup (swapOpt e) = false) : RoutesAgree e :=
+    (h3 : R13_typingDedup look (swapOpt e) = false) : RoutesAgree look e :=
   agree_main e (supp_mono e hS) (hasStar_starU e h1) h3
 
 /-- **All readings coincide exactly when no `Optional[...]` is written (partial).** For a supported
-expression without `Optional[...]` outside the exception classes: AST route = string route =
-runtime route = unquoted in-source = quoted in-source. -/
-theorem all_routes_agree_partial (e : AnnExpr) (hS : Supported e = true)
+expression without `Optional[...]` outside the exception classes, with `L` the (common) lookup of
+the environment: AST route = string route = runtime route = quoted in-source; and the unquoted
+in-source reading is the runtime route on the expression with its names evaluated. -/
+theorem all_routes_agree_partial (env : NameEnv) (e : AnnExpr) (hS : Supported e = true)
     (h1 : D13_starUnpack e = false)
-    (h3 : R13_typingDedup e = false) (h4 : e.hasOpt = false) (au : Bool) :
-    astEval au e = rtEval au (tnorm e) ∧ astEval au (.str e) = rtEval au (tnorm e) ∧
-    visEval au e = rtEval au (tnorm e) ∧ visEval au (.str e) = rtEval au (tnorm e) := by
+    (h3 : R13_typingDedup (visLookup env) e = false) (h4 : e.hasOpt = false) (au : Bool) :
+    astEval (visLookup env) au e = rtEval (visLookup env) au (tnorm e) ∧
+    astEval (globalsLookup env) au (.str e) = rtEval (visLookup env) au (tnorm e) ∧
+    visEval env au (.str e) = rtEval (visLookup env) au (tnorm e) ∧
+    visEval env au e = rtEval (visLookup env) au (tnorm (resolveV (visLookup env) e)) := by
   have hsw := swapOpt_id e h4
-  have h := routes_agree_partial e hS h1 (by rw [hsw]; exact h3) au
+  have h := routes_agree_partial (visLookup env) e hS h1 (by rw [hsw]; exact h3) au
   rw [hsw] at h
-  exact ⟨h, by simpa [astEval] using h, visitor_route_partial e h1 au, by simpa [visEval] using h⟩
+  refine ⟨h, ?_, by simpa [visEval] using h, visitor_route_partial env e h1 au⟩
+  rw [← (lookups_eq env).1]; simpa [astEval] using h
 
 /-- **The same with purely syntactic hypotheses (partial).** The representation class is empty
 wherever `typing` has nothing to normalise: if every `Literal[...]` of `e` has distinct arguments
 and every union of `e` (with `Optional[X]` read as `Union[None, X]`) has at least two arguments,
 none of them a union, no two of them `==`, then — outside `starUnpack` — the routes agree. -/
-theorem routes_agree_plain_partial (e : AnnExpr) (hS : Supported e = true)
+theorem routes_agree_plain_partial (look : Lookup) (e : AnnExpr) (hS : Supported e = true)
     (h1 : D13_starUnpack e = false)
-    (h3 : plainUnions (swapOpt e) = true) : RoutesAgree e :=
-  routes_agree_partial e hS h1 (plain_R13 _ h3)
+    (h3 : plainUnions (swapOpt e) = true) : RoutesAgree look e :=
+  routes_agree_partial look e hS h1 (plain_R13 _ h3)
 
 /-! ### witnesses: the full statements are false in each class -/
 
@@ -85,12 +175,16 @@ theorem routes_agree_plain_partial (e : AnnExpr) (hS : Supported e = true)
 def wStar : AnnExpr := .tup false [.cls C.int, .star (.tupV false (.cls C.str))]
 /-- `Final[int]` -/
 def wFinal : AnnExpr := .final (.cls C.int)
+/-- no names bound -/
+def look0 : Lookup := fun _ => none
+/-- no names bound -/
+def env0 : NameEnv := ⟨[], [], []⟩
 /-- `Union[List[int | str], List[Union[str, int]]]` -/
 def wDedup : AnnExpr :=
   .union [.gen true C.list [.bor (.cls C.int) (.cls C.str)], .gen true C.list [.union [.cls C.str, .cls C.int]]]
 
 /-- `starUnpack`: the AST route raises, the runtime route returns the nested tuple. -/
-theorem witness_starUnpack_routes : ¬ RoutesAgree wStar := by
+theorem witness_starUnpack_routes : ¬ RoutesAgree look0 wStar := by
   intro h
   have := congrArg Option.isSome (h false)
   revert this
@@ -98,7 +192,7 @@ theorem witness_starUnpack_routes : ¬ RoutesAgree wStar := by
 
 /-- `starUnpack`: in checked source the annotation is `tuple[Any]`, the runtime route gives
 `tuple[int, tuple[str, ...]]` (neither is the intended `tuple[int, *tuple[str, ...]]`). -/
-theorem witness_starUnpack_visitor : ¬ VisitorAgrees wStar := by
+theorem witness_starUnpack_visitor : ¬ VisitorAgrees env0 wStar := by
   intro h
   have := congrArg (fun r => r.map fun x => match x.ty with | .seq _ ms => ms.length | _ => 0) (h false)
   revert this
@@ -107,89 +201,93 @@ theorem witness_starUnpack_visitor : ¬ VisitorAgrees wStar := by
 /-- **Regression (former class `finalQuoted`, repaired by d560eeb).** `Final[int]` is read as `int`
 by the AST / string route as by the runtime route, with no error. -/
 theorem regress_finalQuoted :
-    RoutesAgree wFinal ∧ (astEval false wFinal).map (fun r => (r.errs, r.unp)) = some (0, false) ∧
-    (visEval false (.str wFinal)).map (fun r => match r.ty with | .typed c => c | _ => 0) = some C.int :=
-  ⟨routes_agree_partial wFinal (by decide) (by decide) (by decide +kernel), by decide, by decide⟩
+    RoutesAgree look0 wFinal ∧ (astEval look0 false wFinal).map (fun r => (r.errs, r.unp)) = some (0, false) ∧
+    (visEval env0 false (.str wFinal)).map (fun r => match r.ty with | .typed c => c | _ => 0) = some C.int :=
+  ⟨routes_agree_partial look0 wFinal (by decide) (by decide) (by decide +kernel), by decide, by decide⟩
 
 /-- `typingDedup` (representation only): `typing` keeps one of the two `==` arguments, so the
 runtime route yields `list[int | str]`; the AST route unites both, `unite_values` compares hashes
 (order-sensitive on unions) and keeps `list[int | str] | list[str | int]`. -/
-theorem witness_typingDedup : ¬ RoutesAgree wDedup := by
+theorem witness_typingDedup : ¬ RoutesAgree look0 wDedup := by
   intro h
   have := congrArg (fun r => r.map fun x => match x.ty with | .union ts => ts.length | _ => 1) (h false)
   revert this
   decide +kernel
 
 example : D13_starUnpack wStar = true := by decide
-example : R13_typingDedup (swapOpt wDedup) = true := by decide +kernel
+example : R13_typingDedup look0 (swapOpt wDedup) = true := by decide +kernel
 
 /-! ### non-vacuity: the hypotheses are met by a non-trivial expression -/
 
-/-- `Dict[str, Optional[Tuple[int, Unpack[tuple[str, ...]]]]] | Annotated[list['int'], 'm'] | type[A | None]
-    | Literal[1, 1, True]` (class 23 = `A`) -/
+/-- `Dict[str, Optional[Tuple[int, Unpack[tuple[str, ...]]]]] | Annotated[list['int'], 'm'] | type[complex | None]
+    | Literal[1, 1, True]`, `complex` being the module's own class (name 0 of `exEnv`) -/
 def exAnn : AnnExpr :=
   .bor (.bor (.bor
     (.gen true C.dict [.cls C.str, .opt (.tup true [.cls C.int, .unpack (.tupV false (.cls C.str))])])
     (.ann (.gen false C.list [.str (.cls C.int)]) 1))
-    (.typ false (.bor (.cls 23) .none)))
+    (.typ false (.bor (.name 0) .none)))
     (.lit [.int 1, .int 1, .bool true])
 
 example : Supported exAnn = true ∧ D13_starUnpack exAnn = false := by decide
-example : R13_typingDedup (swapOpt exAnn) = false := by decide +kernel
+example : R13_typingDedup (visLookup exEnv) (swapOpt exAnn) = false := by decide +kernel
 /-- `Dict[str, Optional[int]] | list['int'] | Literal[1, True]` meets the syntactic condition -/
 example : plainUnions (swapOpt (.bor (.bor (.gen true C.dict [.cls C.str, .opt (.cls C.int)])
     (.gen false C.list [.str (.cls C.int)])) (.lit [.int 1, .bool true]))) = false := by decide +kernel
 example : plainUnions (swapOpt (.union [.gen true C.dict [.cls C.str, .opt (.cls C.int)],
     .gen false C.list [.str (.cls C.int)], .lit [.int 1, .bool true]])) = true := by decide +kernel
 /-- … and there the routes produce a non-trivial value (a six-member union). -/
-example : (astEval false exAnn).map (fun r => match r.ty with | .union ts => ts.length | _ => 1) = some 6 := by
+example : (astEval (visLookup exEnv) false exAnn).map (fun r => match r.ty with | .union ts => ts.length | _ => 1) = some 6 := by
   decide +kernel
 
 /-! ## 4. def headers: parameters from the def node vs from the function object -/
 
 /-- The full statement (not asserted: false on `unannotated` and on the annotation classes): both routes yield a signature, and the two have the same parameter names, kinds, default
 presence (and literal), annotation values, error counts, and return annotation. -/
-def ParamsAgree (d : DefArgs) : Prop := (fromDef d).map SigOut.core = (fromRuntime d).map SigOut.core
+def ParamsAgree (env : NameEnv) (d : DefArgs) : Prop := (fromDef env d).map SigOut.core = (fromRuntime env d).map SigOut.core
 
 /-- **Signature of the def node = signature of the function object (partial).** For every header
 CPython compiles (any number of parameters of every kind, any names — `__x` included —, any default
 pattern), not a method, without `from __future__ import annotations`, outside the representation
-class `unannotated`, whose annotations have no PEP 646 starred member outside strings (no further
-restriction on the annotations): `compute_parameters` (list concatenation + `zip_longest`) and
+class `unannotated`, whose annotations have no PEP 646 starred member outside strings and look up
+(outside strings) only names not rebound after the def (no further restriction on the annotations;
+names inside strings are unrestricted: shadowing, undefined, defined later): `compute_parameters` (list concatenation + `zip_longest`) and
 `from_signature` over `inspect.signature` (CPython's index-based alignment) produce the same names,
 kinds (both apply the PEP 484 `__x` rule to the parameter and everything before it), defaults,
 annotation values and return type. -/
-theorem params_agree_partial (d : DefArgs) (hwf : d.WF = true) (hm : d.methodOf = none)
+theorem params_agree_partial (env : NameEnv) (d : DefArgs) (hwf : d.WF = true) (hm : d.methodOf = none)
     (hfut : d.future = false) (hR : R13_unannotated d = false)
-    (hstar : d.annAll (fun e => !e.starU) = true) : ParamsAgree d := by
+    (hstar : d.annAll (fun e => !e.starU && stableNames env e) = true) : ParamsAgree env d := by
   simp only [DefArgs.annAll, Bool.and_eq_true, List.all_eq_true] at hstar
   refine params_agree_core d hwf hm hR (fun a ha e he => ?_) (fun e he => ?_)
   · rw [hfut]
     have := hstar.1 a ha
-    simp only [PArg.annAll, he] at this
-    exact annOK_now e (by simpa using this)
+    simp only [PArg.annAll, he, Bool.and_eq_true, Bool.not_eq_true'] at this
+    exact annOK_now env e this.1 this.2
   · rw [hfut]
     have := hstar.2
-    simp only [he] at this
-    exact annOK_now e (by simpa using this)
+    simp only [he, Bool.and_eq_true, Bool.not_eq_true'] at this
+    exact annOK_now env e this.1 this.2
 
 /-- an annotation both routes read alike even when the function object only carries its text -/
-def futureOK (e : AnnExpr) : Bool :=
-  Supported e && !D13_starUnpack e && !R13_typingDedup e && !e.hasOpt
+def futureOK (env : NameEnv) (e : AnnExpr) : Bool :=
+  Supported (resolveV (visLookup env) e) && !D13_starUnpack e &&
+  !R13_typingDedup (visLookup env) (resolveV (visLookup env) e) && !(resolveV (visLookup env) e).hasOpt
 
 /-- **The same under `from __future__ import annotations` (partial).** The function object then
-carries the annotation *text*, which the inspect route reads by the AST route; the signatures agree
-when every annotation is supported, outside `starUnpack` / `typingDedup`, and has no
-`Optional[...]` (whose member order the AST route reverses). -/
-theorem params_agree_future_partial (d : DefArgs) (hwf : d.WF = true) (hm : d.methodOf = none)
+carries the annotation *text*, which the inspect route reads by the AST route, looking every name up
+in `f.__globals__`; the signatures agree when every annotation — with its names replaced by what
+the visitor binds them to — is supported, outside `starUnpack` / `typingDedup`, and has no
+`Optional[...]` (whose member order the AST route reverses). Names may shadow builtins, be
+undefined, or be bound after the def. -/
+theorem params_agree_future_partial (env : NameEnv) (d : DefArgs) (hwf : d.WF = true) (hm : d.methodOf = none)
     (hfut : d.future = true) (hR : R13_unannotated d = false)
-    (hann : d.annAll futureOK = true) : ParamsAgree d := by
+    (hann : d.annAll (futureOK env) = true) : ParamsAgree env d := by
   simp only [DefArgs.annAll, Bool.and_eq_true, List.all_eq_true] at hann
-  have key : ∀ e, futureOK e = true → AnnOK true e := by
+  have key : ∀ e, futureOK env e = true → AnnOK env true e := by
     intro e he
     simp only [futureOK, Bool.and_eq_true, Bool.not_eq_true'] at he
     obtain ⟨⟨⟨h1, h2⟩, h4⟩, h5⟩ := he
-    exact annOK_future e (supp_mono e h1) (hasStar_starU e h2) h4 h5
+    exact annOK_future env e (supp_mono _ h1) (hasStar_starU e h2) h4 h5
   refine params_agree_core d hwf hm hR (fun a ha e he => ?_) (fun e he => ?_)
   · rw [hfut]
     have := hann.1 a ha
@@ -205,10 +303,10 @@ theorem params_agree_future_partial (d : DefArgs) (hwf : d.WF = true) (hm : d.me
 /-- **Calls are judged alike (partial; corollary of `ParamsAgree`).** Whenever the two signature
 routes agree on a header, every call shape (any positionals, `*args`, keywords, `**kwargs`) binds to
 the same parameters — or is rejected — under both signatures, against the same declared types. -/
-theorem call_verdict_agree (d : DefArgs) (h : ParamsAgree d) (args : List Arg) :
-    (fromDef d).map (fun s => callView s args) = (fromRuntime d).map (fun s => callView s args) := by
+theorem call_verdict_agree (env : NameEnv) (d : DefArgs) (h : ParamsAgree env d) (args : List Arg) :
+    (fromDef env d).map (fun s => callView s args) = (fromRuntime env d).map (fun s => callView s args) := by
   unfold ParamsAgree at h
-  cases h1 : fromDef d <;> cases h2 : fromRuntime d <;> simp only [h1, h2, Option.map_none, Option.map_some] at h ⊢
+  cases h1 : fromDef env d <;> cases h2 : fromRuntime env d <;> simp only [h1, h2, Option.map_none, Option.map_some] at h ⊢
   · simp at h
   · simp at h
   · rename_i s t
@@ -234,17 +332,17 @@ def wDunder2 : DefArgs := { hdr0 with args := [noAnn "a", noAnn "__b", noAnn "c"
 `__x` positional-only, and `f(__x=1)` is rejected by both; in `def f(a, __b, c)` both make `a` and
 `__b` positional-only and leave `c` positional-or-keyword. -/
 theorem regress_dunderPosOnly :
-    ParamsAgree wDunder ∧ ParamsAgree wDunder2 ∧
-    (fromDef wDunder).map (fun s => s.params.map (·.kind)) = some [Kind.posOnly] ∧
-    (fromDef wDunder2).map (fun s => s.params.map (·.kind)) = some [Kind.posOnly, Kind.posOnly, Kind.posOrKw] ∧
-    (fromDef wDunder).map (fun s => (pyaCall (toBindSig s) [Arg.kw "__x"]).isSome) = some false ∧
-    (fromRuntime wDunder).map (fun s => (pyaCall (toBindSig s) [Arg.kw "__x"]).isSome) = some false :=
-  ⟨params_agree_partial wDunder (by decide) rfl rfl (by decide) (by decide),
-   params_agree_partial wDunder2 (by decide) rfl rfl (by decide) (by decide),
+    ParamsAgree env0 wDunder ∧ ParamsAgree env0 wDunder2 ∧
+    (fromDef env0 wDunder).map (fun s => s.params.map (·.kind)) = some [Kind.posOnly] ∧
+    (fromDef env0 wDunder2).map (fun s => s.params.map (·.kind)) = some [Kind.posOnly, Kind.posOnly, Kind.posOrKw] ∧
+    (fromDef env0 wDunder).map (fun s => (pyaCall (toBindSig s) [Arg.kw "__x"]).isSome) = some false ∧
+    (fromRuntime env0 wDunder).map (fun s => (pyaCall (toBindSig s) [Arg.kw "__x"]).isSome) = some false :=
+  ⟨params_agree_partial env0 wDunder (by decide) rfl rfl (by decide) (by decide),
+   params_agree_partial env0 wDunder2 (by decide) rfl rfl (by decide) (by decide),
    by decide, by decide, by decide, by decide⟩
 
 /-- `unannotated` (representation only): `Any | Literal[1]` from the def node, `Any` from the function object. -/
-theorem witness_unannotated : ¬ ParamsAgree wUnann := by
+theorem witness_unannotated : ¬ ParamsAgree env0 wUnann := by
   intro h
   have := congrArg (fun r => r.map fun s => s.1.map fun p => match p.2.2.2.1 with | .any => true | _ => false) h
   revert this
@@ -261,10 +359,28 @@ def exHdr : DefArgs :=
     defaults := [.lit .none], returns := some (.tupV false (.cls C.int)), methodOf := none, future := false }
 
 example : exHdr.WF = true ∧ R13_unannotated exHdr = false ∧
-    exHdr.annAll (fun e => !e.starU) = true := by decide
-example : (fromDef exHdr).map (fun s => s.params.length) = some 6 := by decide +kernel
-/-- a header under `from __future__ import annotations` meeting the hypotheses -/
-example : ({ exHdr with future := true, args := [⟨"b", some (.bor (.cls C.str) .none)⟩] } : DefArgs).annAll futureOK = true := by
-  decide +kernel
+    exHdr.annAll (fun e => !e.starU && stableNames exEnv e) = true := by decide
+example : (fromDef exEnv exHdr).map (fun s => s.params.length) = some 6 := by decide +kernel
+/-- a header under `from __future__ import annotations` meeting the hypotheses: `b: complex | None`
+(the module's own `complex`), `-> "Later"` (bound after the def) -/
+def exFuture : DefArgs :=
+  { exHdr with
+    future := true
+    args := [⟨"b", some (.bor (.name 0) .none)⟩]
+    returns := some (.name 4) }
+example : exFuture.annAll (futureOK exEnv) = true := by decide +kernel
+
+/-- `def f(x: "complex") -> "Later"`, `complex` shadowed by the module, `Later` bound after the def -/
+def exShadow : DefArgs :=
+  { hdr0 with args := [⟨"x", some (.str (.name 0))⟩], returns := some (.str (.name 4)) }
+
+/-- **Regression for the shadowing case.** Both signature routes read `"complex"` as the module's
+class `B` (24), not the builtin, and `"Later"` as the class bound after the def. -/
+theorem regress_shadowedName :
+    ParamsAgree exEnv exShadow ∧
+    (fromRuntime exEnv exShadow).map (fun s =>
+      (s.params.map (fun p => match p.ann with | .typed c => c | _ => 0), match s.ret with | .typed c => c | _ => 0)) =
+      some ([24], 26) :=
+  ⟨params_agree_partial exEnv exShadow (by decide) rfl rfl (by decide) (by decide), by decide +kernel⟩
 
 end Pya.C13
